@@ -55,6 +55,9 @@ func c03Value(c *ctx, val interface{}, label string, seed uint64, budget int, re
 		if len(bs) < 20000 && varied > 0 {
 			c.corr("parse "+hx(bs), "ok "+h0.String())
 		}
+		if varied > 0 && len(bs) < 4000 {
+			decCorr(c, tm, bs)
+		}
 		var d interface{}
 		o, m := guard(func() error { var e error; d, e = hessian.ToObject(bs, tm); return e })
 		cls := ""
